@@ -1,5 +1,6 @@
 /- `code_size()` against the ideal size; the size is unchanged by `flatten`. -/
 import AsmjitVerif.Lemmas.SectionsFlatten
+import AsmjitVerif.Lemmas.SectionsCopy
 namespace AsmjitVerif.Sections
 
 theorem codeSizeLoop_sticky (off : Nat) (secs : List Section) : (codeSizeLoop off true secs).2 = true := by
@@ -156,5 +157,180 @@ theorem assign_idealEnd (off : Nat) (secs : List Section) (hpre : Pre off secs) 
         unfold firstNonEmpty at ht
         rw [hreal, if_neg (by omega)] at ht
         exact ihF t ht
+
+end AsmjitVerif.Sections
+
+namespace AsmjitVerif.Sections
+
+theorem endOfLastNonEmpty_all_empty {l : List Section} (h : ∀ b ∈ l, b.realSize = 0) (d : Nat) : endOfLastNonEmpty d l = d := by
+  induction l generalizing d with
+  | nil => rfl
+  | cons s rest ih =>
+    unfold endOfLastNonEmpty
+    rw [if_neg (by have := h s (by simp); omega)]
+    exact ih (fun b hb => h b (by simp [hb])) d
+
+theorem endOfLastNonEmpty_default {l : List Section} {t : Section} (hf : firstNonEmpty l = some t) (d d' : Nat) :
+    endOfLastNonEmpty d l = endOfLastNonEmpty d' l := by
+  induction l generalizing d d' with
+  | nil => simp [firstNonEmpty] at hf
+  | cons s rest ih =>
+    unfold firstNonEmpty at hf
+    unfold endOfLastNonEmpty
+    split at hf
+    · rename_i hr; rw [if_pos hr, if_pos hr]
+    · rename_i hr; rw [if_neg hr, if_neg hr]; exact ih hf d d'
+
+/-- the default is returned or some non-empty member's end -/
+theorem endOfLastNonEmpty_mem (l : List Section) (d : Nat) :
+    endOfLastNonEmpty d l = d ∨ ∃ b ∈ l, b.realSize ≠ 0 ∧ endOfLastNonEmpty d l = b.offset + b.realSize := by
+  induction l generalizing d with
+  | nil => left; rfl
+  | cons s rest ih =>
+    unfold endOfLastNonEmpty
+    split
+    · rename_i hr
+      rcases ih (s.offset + s.realSize) with h | ⟨b, hb, hne, he⟩
+      · right; exact ⟨s, by simp, hr, h⟩
+      · right; exact ⟨b, by simp [hb], hne, he⟩
+    · rcases ih d with h | ⟨b, hb, hne, he⟩
+      · left; exact h
+      · right; exact ⟨b, by simp [hb], hne, he⟩
+
+theorem assign_length (off : Nat) (secs : List Section) : (assign off secs).length = secs.length := by
+  induction secs generalizing off with
+  | nil => rfl
+  | cons s rest ih =>
+    unfold assign
+    split
+    · simp only []
+      split <;> simp [ih]
+    · simp [ih]
+
+theorem lastEnd_cons {s : Section} {l : List Section} (h : l ≠ []) : lastEnd (s :: l) = lastEnd l := by
+  unfold lastEnd
+  cases l with
+  | nil => exact absurd rfl h
+  | cons a r => simp [List.getLast?_cons_cons]
+
+/-- after `flatten`, the ideal size is the end of the last non-empty section, and also the end of the very last section -/
+theorem assign_ends (off : Nat) (secs : List Section) (hpre : Pre off secs) (hfit : idealEnd off secs < U64) :
+    endOfLastNonEmpty off (assign off secs) = idealEnd off secs ∧
+    (secs ≠ [] → lastEnd (assign off secs) = idealEnd off secs) := by
+  induction secs generalizing off with
+  | nil => simp [assign, endOfLastNonEmpty, idealEnd]
+  | cons s rest ih =>
+    have hoff : off < U64 := by have := idealEnd_ge off (s :: rest); omega
+    unfold assign
+    by_cases hr : s.realSize ≠ 0
+    · simp only [if_pos hr]
+      have hend : idealEnd off (s :: rest) = idealEnd (roundUp off s.align + s.realSize) rest := by simp [idealEnd, hr]
+      rw [hend] at hfit ⊢
+      have hx := idealEnd_ge (roundUp off s.align + s.realSize) rest
+      have hge := roundUp_ge off s.align
+      have he := alignUp_eq_of_fits off s.align hpre.1 hoff (by omega)
+      rw [he, Nat.mod_eq_of_lt (by omega)]
+      obtain ⟨ihE, ihL⟩ := ih (roundUp off s.align + s.realSize) (Pre_tail hpre _) hfit
+      obtain ⟨_, gB, _, gD⟩ := assign_good (roundUp off s.align + s.realSize) rest (Pre_tail hpre _) hfit
+      have hbnd := layoutChk_bounds gB
+      have hlen := assign_length (roundUp off s.align + s.realSize) rest
+      have hlast : ∀ (s' : Section), s'.offset + s'.realSize = roundUp off s.align + s.realSize ∨ rest ≠ [] →
+          (rest = [] → s'.offset + s'.realSize = roundUp off s.align + s.realSize) →
+          lastEnd (s' :: assign (roundUp off s.align + s.realSize) rest) = idealEnd (roundUp off s.align + s.realSize) rest := by
+        intro s' _ hnil
+        cases hrest : rest with
+        | nil =>
+          subst hrest
+          simp only [assign, idealEnd, lastEnd, List.getLast?_singleton]
+          exact hnil rfl
+        | cons a r =>
+          have hne : assign (roundUp off s.align + s.realSize) rest ≠ [] := by
+            intro hc; rw [hc] at hlen; rw [hrest] at hlen; simp at hlen
+          rw [← hrest, lastEnd_cons hne]
+          exact ihL (by rw [hrest]; simp)
+      cases hf : firstNonEmpty (assign (roundUp off s.align + s.realSize) rest) with
+      | none =>
+        simp only []
+        have hnone := firstNonEmpty_none hf
+        have hreal : ({ s with offset := roundUp off s.align } : Section).realSize = s.realSize := rfl
+        constructor
+        · unfold endOfLastNonEmpty
+          rw [hreal, if_pos hr]
+          show endOfLastNonEmpty (roundUp off s.align + s.realSize) _ = _
+          rw [endOfLastNonEmpty_all_empty hnone, ← ihE, endOfLastNonEmpty_all_empty hnone]
+        · intro _
+          exact hlast _ (Or.inl rfl) (fun _ => rfl)
+      | some t =>
+        simp only []
+        obtain ⟨htm, htne⟩ := firstNonEmpty_mem hf
+        have htlo := (hbnd t htm).2 htne
+        have htD := gD t htm
+        have hvs : (t.offset + U64 - roundUp off s.align) % U64 = t.offset - roundUp off s.align := by
+          have : t.offset + U64 - roundUp off s.align = (t.offset - roundUp off s.align) + U64 := by omega
+          rw [this, Nat.add_mod_right, Nat.mod_eq_of_lt (by omega)]
+        rw [hvs]
+        have hreal : ({ s with offset := roundUp off s.align, vsize := t.offset - roundUp off s.align } : Section).realSize
+            = t.offset - roundUp off s.align := by
+          show max (t.offset - roundUp off s.align) s.bufSize = _
+          have : s.bufSize ≤ s.realSize := by unfold Section.realSize; omega
+          omega
+        have hrne : rest ≠ [] := by
+          intro hc; subst hc; simp [assign] at htm
+        constructor
+        · unfold endOfLastNonEmpty
+          rw [hreal, if_pos (by omega)]
+          rw [endOfLastNonEmpty_default hf _ (roundUp off s.align + s.realSize)]
+          exact ihE
+        · intro _
+          exact hlast _ (Or.inr hrne) (fun h => absurd h hrne)
+    · simp only [if_neg hr]
+      have hr0 : s.realSize = 0 := by omega
+      have hend : idealEnd off (s :: rest) = idealEnd off rest := by simp [idealEnd, hr0]
+      rw [hend] at hfit ⊢
+      obtain ⟨ihE, ihL⟩ := ih off (Pre_tail hpre _) hfit
+      have hreal : ({ s with offset := off } : Section).realSize = 0 := hr0
+      have hlen := assign_length off rest
+      constructor
+      · unfold endOfLastNonEmpty
+        rw [hreal, if_neg (by omega)]
+        exact ihE
+      · intro _
+        cases hrest : rest with
+        | nil =>
+          simp only [assign, idealEnd, lastEnd, List.getLast?_singleton]
+          show off + s.realSize = off
+          omega
+        | cons a r =>
+          have hne : assign off rest ≠ [] := by
+            intro hc; rw [hc] at hlen; rw [hrest] at hlen; simp at hlen
+          rw [← hrest, lastEnd_cons hne]
+          exact ihL (by rw [hrest]; simp)
+
+end AsmjitVerif.Sections
+
+namespace AsmjitVerif.Sections
+
+theorem foldl_max_le {α : Type} (f : α → Nat) (l : List α) (e M : Nat) (he : e ≤ M) (h : ∀ s ∈ l, f s ≤ M) :
+    l.foldl (fun m s => max m (f s)) e ≤ M := by
+  induction l generalizing e with
+  | nil => simpa using he
+  | cons a rest ih =>
+    simp only [List.foldl_cons]
+    apply ih
+    · have := h a (by simp); omega
+    · intro s hs; exact h s (by simp [hs])
+
+/-- after `flatten` the largest section end is the ideal size -/
+theorem assign_imageEnd (secs : List Section) (hpre : Pre 0 secs) (hfit : idealEnd 0 secs < U64) :
+    imageEnd (assign 0 secs) = idealEnd 0 secs := by
+  obtain ⟨_, _, _, gD⟩ := assign_good 0 secs hpre hfit
+  have hE := (assign_ends 0 secs hpre hfit).1
+  unfold imageEnd
+  apply Nat.le_antisymm
+  · exact foldl_max_le (fun (s : Section) => s.offset + s.realSize) _ 0 _ (Nat.zero_le _) gD
+  · have hge := foldl_max_ge (fun s => s.offset + s.realSize) (assign 0 secs) 0
+    rcases endOfLastNonEmpty_mem (assign 0 secs) 0 with h | ⟨b, hb, _, he⟩
+    · rw [← hE, h]; exact Nat.zero_le _
+    · rw [← hE, he]; exact hge.2 b hb
 
 end AsmjitVerif.Sections
